@@ -40,6 +40,12 @@ def parseOp (s : String) : Op :=
       | "clear", [] => .clear
       | "entry", [k, n] => .entry k n
       | "entocc", [k] => .entocc k
+      | "entrem", [k] => .entrem k
+      | "entins", [k, n] => .entins k n
+      | "entget", [k] => .entget k
+      | "entmut", [k, n] => .entmut k n
+      | "entwith", [k, n] => .entwith k n
+      | "entkey", [k] => .entkey k
       | "idx", [k] => .idx k
       | "idxmut", [k] => .idxmut k
       | "idxset", [k, n] => .idxset k n
@@ -93,22 +99,26 @@ def finalTok (f : Final) : String :=
     | none => "na"
   s!"len={f.len} empty={tf f.empty} iter={joinTok (f.iter.map pairTok)} get={",".intercalate (f.gets.map optTok)} into={into} print={hexStr f.print}"
 
-def mapLike (d : Dialect) (init : Items) (ops : List Op) : String :=
-  let r := run current d init ops
-  -- occupied/vacant: the harness prints occ/vac
-  let toks := (ops.zip r.1).map fun (op, x) =>
-    match op, x with
-    | .entocc _, .bool true => "occ"
-    | .entocc _, .bool false => "vac"
-    | _, x => retTok x
-  s!"{";".intercalate toks} | {finalTok (observe current d r.2)}"
+/-- the harness prints the outcome of the Entry API per call: `occ`/`vac`, and `vac` where a lookup prints `none` -/
+def opTok : Op → Ret → String
+  | .entocc _, .bool true => "occ"
+  | .entocc _, .bool false => "vac"
+  | .entrem _, .opt none => "vac"
+  | .entins _ n, .opt (some s) => s!"{slotTok s}>v{n}"
+  | .entins _ n, .opt none => s!"vac>v{n}"
+  | .entget k, .kv none => "vac:" ++ keyName k
+  | .entmut _ n, .opt (some s) => s!"{slotTok s}>v{n}"
+  | .entmut _ _, .opt none => "vac"
+  | .entkey k, .bool true => "occ:" ++ keyName k
+  | .entkey k, .bool false => "vac:" ++ keyName k
+  | _, x => retTok x
 
 def entoccFix (ops : List Op) (rets : List Ret) : List String :=
-  (ops.zip rets).map fun (op, x) =>
-    match op, x with
-    | .entocc _, .bool true => "occ"
-    | .entocc _, .bool false => "vac"
-    | _, x => retTok x
+  (ops.zip rets).map fun (op, x) => opTok op x
+
+def mapLike (d : Dialect) (init : Items) (ops : List Op) : String :=
+  let r := run current d init ops
+  s!"{";".intercalate (entoccFix ops r.1)} | {finalTok (observe current d r.2)}"
 
 def vecFinal (len : Nat) (iter : List Nat) (print : String) : String :=
   let it := joinTok (iter.map fun n => s!"v{n}")
